@@ -23,12 +23,12 @@ REPO = os.environ.get('HOLPY_REPO', '/repo')
 QUICK_THEORIES = ['logic_base', 'logic', 'nat', 'function', 'set', 'list']
 THOROUGH_THEORIES = QUICK_THEORIES + ['int', 'rat', 'expr', 'hoare', 'topology', 'real']
 
-_VQ = ['memo_key_ignores_unicode', 'no_bracket_right_assoc', 'variant_name_not_avoiding_free', 'settings_not_restored',
+_VQ = ['memo_key_ignores_theory', 'no_bracket_right_assoc', 'variant_name_not_avoiding_free', 'settings_not_restored',
        'annotation_dropped']
 TIERS = {
-    'quick': dict(fork=True, worlds=16, runs=40, batch=1, det_runs=4, soft_timeout=240,
-                  variants=_VQ[:4], variant_budget=60, min_tests=60, extra_workers=3),
-    'thorough': dict(fork=True, worlds=64, runs=500, batch=1, det_runs=8, soft_timeout=600,
+    'quick': dict(fork=True, worlds=16, runs=16, batch=1, det_runs=3, soft_timeout=300,
+                  variants=_VQ[:4], variant_budget=40, min_tests=60, extra_workers=3),
+    'thorough': dict(fork=True, worlds=64, runs=200, batch=1, det_runs=8, soft_timeout=600,
                      variants=_VQ, variant_budget=400, min_tests=120),
 }
 
@@ -40,7 +40,7 @@ def warmup():
     from syntax import parser, printer, pprint  # noqa
     import data.nat, data.set, data.function, data.list  # noqa
     from server import server, method  # noqa
-    for th in THOROUGH_THEORIES:
+    for th in (QUICK_THEORIES if os.environ.get('HOLSIM_TIER') == 'quick' else THOROUGH_THEORIES):
         try:
             basic.load_theory(th)
         except Exception:
@@ -768,8 +768,9 @@ def _ps(owner, name, old, new):
 
 
 def _v_memo_unicode():
+    """re-creates the defect repaired by fix fe97827: the memo key ignores the theory"""
     from syntax import pprint
-    _ps(pprint, 'get_ast_term', "key = [t, settings.unicode]", "key = [t, False]")
+    _ps(pprint, 'get_ast_term', "key = key + [(c.name, term_sig.get(c.name)) for c in t.get_consts()]", "pass")
 
 
 def _v_bracket():
@@ -810,7 +811,7 @@ def _v_annot():
 
 
 VARIANTS = {
-    'memo_key_ignores_unicode': _v_memo_unicode,
+    'memo_key_ignores_theory': _v_memo_unicode,
     'no_bracket_right_assoc': _v_bracket,
     'variant_name_not_avoiding_free': _v_variant,
     'settings_not_restored': _v_settings,
